@@ -21,6 +21,35 @@ CHECKS = {
              ref="4 C05", note=LEVEL_NOTE_REF),
 }
 
+LEVEL_NOTE_ENUM = ("Trusted base: the definitions/oracles written in harness/vcheck/src (file/rank arithmetic, no tables shared with the repository), "
+                   "rustc. Finite spaces named in the level text are enumerated completely (evidence carries exhaustive=true for those); the remainder is sampled.")
+CHECKS.update({
+ "C08": dict(tech="exhaustive enumeration of all ray-subset occupancies per square against a ray-casting oracle, plus generated full occupancies (differential)",
+             text="Exploration, exhaustive on the ray-subset space: for every square and both slider kinds every subset of the square's own ray squares (1,119,744 triples) is looked up bare, with the square itself occupied and with generated off-ray noise and compared with coordinate-stepping ray casting; generated 64-bit occupancies sample the independence from off-ray squares. Index-in-range is decided by the same enumeration in the checked profile.",
+             ref="4 C08", note=LEVEL_NOTE_ENUM),
+ "C09": dict(tech="exhaustive enumeration of every table entry and constant against arithmetic definitions; differential against the table generator's functions",
+             text="Exploration, exhaustive: all 64 squares, 64x64 pairs, both colours and all occupancies of the relevant pawn squares are compared with definitions written in |dfile|,|drank| arithmetic; all castling/promotion/double-step/adjacency constants; the generator crate's functions must reproduce the checked-in tables.",
+             ref="4 C09", note=LEVEL_NOTE_ENUM),
+ "C14": dict(tech="exhaustive pairs/triples over a boundary set + all adjacent mate distances + proptest triples against an order-embedding key",
+             text="Exploration, exhaustive on the boundary set (27^3 triples) and on all 65535 adjacent mate distances of both variants; generated edge-biased triples beyond. Comparison, equality, partial comparison, operators, min/max/clamp, antisymmetry and transitivity are checked.",
+             ref="4 C14", note=LEVEL_NOTE_ENUM),
+ "C16": dict(tech="exhaustive round-trip enumeration (all 20480 moves, all 131072 mate scores) plus generated raw scores",
+             text="Exploration, exhaustive for moves, 'no move' and mate scores; raw scores at the 32-bit extremes, around zero and generated. Round trip through StableChessMove and EvaluatedMove compared structurally.",
+             ref="4 C16", note=LEVEL_NOTE_ENUM),
+ "C17": dict(tech="complete walk of the embedded book trie in lockstep with the reference model (differential), release and checked profiles",
+             text="Exploration, exhaustive: every one of the ~29k edges of the embedded book is checked for legality against the reference model and acceptance by move_new from the standard position; every node's iterator terminates; the checked-profile run traps any out-of-table index.",
+             ref="4 C17", note=LEVEL_NOTE_REF),
+ "C18": dict(tech="model-based testing against a [bool;64] set model: exhaustive structured boards + generated boards + proptest iterator op lists",
+             text="Exploration: every listed operation is compared with a plain set model on all empty/full/single/pair/file/rank boards and complements, on generated boards, and iterator op lists (next, nth incl. n >= 64, skip, step_by, clone, count, last) are checked against a Vec model with the remainder compared after every op.",
+             ref="4 C18", note=LEVEL_NOTE_ENUM),
+ "C19": dict(tech="exhaustive enumeration of byte strings over finite alphabets against an independent accept predicate; round trips; iterator op lists vs slice iterators",
+             text="Exploration, exhaustive on 64 squares, 256 one-byte, 65536 two-byte strings, all 4-/5-byte strings over the move alphabet, all 4096 moves in every case/separator spelling, and all short op lists on the five enum iterators; generated byte strings of other lengths.",
+             ref="4 C19", note=LEVEL_NOTE_ENUM),
+ "C20": dict(tech="schedule enumeration with a harness-owned interleaving of two OS threads against a state model (all schedules of length <= 4/5, proptest beyond), plus a schedule-independent invariant under real parallelism",
+             text="Exploration, exhaustive over all operation-granularity interleavings of length <= 4 (quick) / 5 (thorough) of the eight operations on two threads; after every step both threads' is_enabled() must be explained by the model (global flag + admissible override states). Longer schedules are generated; a free-running mode checks the override invariant under real parallelism.",
+             ref="4 C20", note="Trusted base: the state model in harness/vcheck/src/c20.rs; the claim (from the property) that each operation touches the single global atomic at most once, which makes operation-granularity interleavings complete; std threads and channels."),
+})
+
 NOT_YET = {
 }
 
